@@ -12,20 +12,25 @@ from ..loader import AnalysisError, Func, Program, dotted, norm, parent
 from . import common as C
 
 ID = 'C16'
-TECHNIQUE = ('abstract evaluation of the two scan predicates to guard normal forms, classified over the finite set of '
-             'orderings of (row drop - centre drop) against +-half height; normal forms of slice bounds, fallbacks and '
-             'of the half height; guarded-case analysis of the sentinel check')
+TECHNIQUE = ('abstract evaluation of the two scan predicates to guard normal forms, classified over the '
+             'finite set of orderings of (row drop - centre drop) against +-half height; normal forms of '
+             'slice bounds, fallbacks and of the half height; guarded-case analysis of the sentinel check')
 DECIDED = [
-    'R1 each scan stops on |drop - centre drop| >= half height: the predicate is true above and below and false inside',
-    'R2 both sides of the comparison are on one scale (raw magnitudes; half height = raw height / 2), the begin scan '
-    'walks the rows before the target row backwards and falls back to the first row, the end scan walks the rows '
-    'after it and falls back to the last row, and the target row is the looked-up row',
+    'R1 each scan stops on |drop - centre drop| >= half height: the predicate is true above and below and '
+    'false inside',
+    'R2 both sides of the comparison are on one scale (raw magnitudes; half height = raw height / 2), the '
+    'begin scan walks the rows before the target row backwards and falls back to the first row, the end scan '
+    'walks the rows after it and falls back to the last row, and the target row is the looked-up row',
     'R3 the -1 sentinel of the look-up raises before it can be used as a subscript',
-    'R4 refutation only: on every row list of length 1-4 with drops 0 / 1 / 3 ft against a 4 ft target and every target '
-    'row (engine D reading danger_space with loops over known lists unrolled), the rows returned satisfy the statement; '
-    'a counterexample names the rows',
+    'R4 refutation only: on every row list of length 1-4 with drops 0 / 1 / 3 ft against a 4 ft target, every'
+    ' target row and a look-up that found no row (engine D reading danger_space with for loops over known '
+    'lists and while loops with decided conditions unrolled), the rows returned satisfy the statement and the'
+    ' -1 look-up raises; a counterexample names the rows; bounds the reading cannot pin to single rows are '
+    'unreadable, never a counterexample',
 ]
-NOT_DECIDED = ['that the scans are correct over arbitrary row lists (loop correctness), monotonicity in target height']
+NOT_DECIDED = [
+    'that the scans are correct over arbitrary row lists (loop correctness), monotonicity in target height',
+]
 
 
 def truth_at(ev: Evaluator, v, env: Dict[str, float]) -> Optional[bool]:
